@@ -167,6 +167,14 @@ func (C12) Generate(c *Ctx, r *Rand, index int) *Scenario {
 	if !sc.TmpOther && c.W.Strace != "" && rs.Chance(1, straceOdds) {
 		sc.Strace = "renameat:error=" + Pick(rs, []string{"EBUSY", "EACCES", "EXDEV", "EPERM"})
 	}
+	if sc.Strace == "" && c.W.Strace != "" && rs.Chance(1, straceOdds) {
+		// faults at system calls that have no hook in front of them
+		sc.Strace = Pick(rs, []string{
+			"fsync:error=EIO", "fsync:error=EIO", "fdatasync:error=EIO", "unlinkat:error=EACCES", "fchmodat:error=EPERM", "fchownat:error=EPERM",
+			"write:error=ENOSPC:when=" + strconv.Itoa(rs.Range(1, 6)), "write:error=EIO:when=" + strconv.Itoa(rs.Range(1, 6)), "write:error=ENOSPC:when=" + strconv.Itoa(rs.Range(1, 3)) + "+",
+			"close:error=EIO:when=" + strconv.Itoa(rs.Range(3, 9)),
+		})
+	}
 	sc.Plan.Watch = []string{target}
 
 	// read schedule
@@ -400,11 +408,30 @@ func (C12) Judge(c *Ctx, sc *Scenario) []Violation {
 		}
 	}
 	faults := faultTags(out)
+	if sc.Strace != "" && !strings.HasPrefix(sc.Strace, "renameat") {
+		// faults injected at the system-call boundary leave no hook event
+		tag := "strace:" + strings.SplitN(sc.Strace, ":", 2)[0]
+		if faults == "none" {
+			faults = tag
+		} else {
+			faults += "+" + tag
+		}
+	}
+	if len(out.Events) == 0 {
+		// untraced run (write faults by strace): the path is known from the set-up
+		path = "rename"
+		if sc.TmpOther {
+			path = "fallback"
+		}
+	}
 	nontrivial := faults != "none" || path == "fallback"
 	if !c.Quiet {
 		c.Stats.Distinct(out.TraceSig(), nontrivial)
+		if sc.Strace != "" && !strings.HasPrefix(sc.Strace, "renameat") {
+			c.Count("fired.strace." + strings.SplitN(sc.Strace, ":", 2)[0])
+		}
 		if path == "fallback" {
-			if sc.Strace != "" {
+			if strings.HasPrefix(sc.Strace, "renameat") {
 				c.Count("fired.strace." + sc.Strace)
 				c.Count("probe.rename_failed_by_strace_took_fallback")
 			} else {
